@@ -1026,6 +1026,11 @@ func engineQuiesce(rng *rand.Rand, n int, tier string, o *Out) {
 	}
 	time.Sleep(250 * time.Millisecond) // handlers of the deferred histories are done before baselines are taken
 
+	// two further history families (engine_quiesce_fam.go): responses damaged between relay and
+	// callee; writers held by a full send buffer until the deadline.  Their relay worlds are
+	// judged again after the tombstone period and closed with the deferred ones.
+	deferred = append(deferred, c11Families(rng, n, sites, o)...)
+
 	// two scripted histories that every run covers
 	for sc := 0; sc < 2; sc++ {
 		w := c11ScriptedWorld(sc, sites)
